@@ -620,3 +620,160 @@ Proof.
   cbn beta iota in H. destruct H as [u' [Hs [_ [_ [H _]]]]]. inversion Hs; subst u'.
   destruct (H Hnw) as [H1 _]. unfold used_by in H1. rewrite Hf in H1. exact H1.
 Qed.
+
+(* ------------------------------------------------------------------------------------------ *)
+(* 3. block connection: the loops of the responder *)
+
+Lemma mem_uuid_cons x u r : mem_uuid x (u :: r) = uuid_eqb x u || mem_uuid x r.
+Proof. reflexivity. Qed.
+
+Lemma mem_uuid_filter_false u (p : N * N -> bool) l : mem_uuid u l = false -> mem_uuid u (filter p l) = false.
+Proof.
+  intros H. destruct (mem_uuid u (filter p l)) eqn:E; [|reflexivity].
+  apply mem_uuid_In in E. apply filter_In in E. destruct E as [E _]. apply mem_uuid_In in E. congruence.
+Qed.
+
+Lemma del_nil l : del [] l = l.
+Proof. unfold del. apply filter_true. intros; reflexivity. Qed.
+
+(* the slots of the rows selected by a duplicate-free list of keys, one key at a time *)
+Lemma ssum_mem_cons (p : app -> bool) u r l :
+  NoDup (map app_uuid l) -> ~ In u r ->
+  ssum (filter (fun x => p x && mem_uuid (app_uuid x) (u :: r)) l)
+  = ssum (filter (fun x => p x && mem_uuid (app_uuid x) r) l)
+    + match find_app l u with Some a => if p a then aslots a else 0 | None => 0 end.
+Proof.
+  intros Hnd Hu. induction l as [|x l IH]; [reflexivity|].
+  cbn [map] in Hnd. apply NoDup_cons_iff in Hnd. destruct Hnd as [Hx Hnd].
+  rewrite find_app_cons. cbn [filter]. rewrite mem_uuid_cons.
+  destruct (uuid_eqb (app_uuid x) u) eqn:E.
+  - apply uuid_eqb_eq in E.
+    assert (Hr : mem_uuid (app_uuid x) r = false).
+    { destruct (mem_uuid (app_uuid x) r) eqn:Em; [|reflexivity]. apply mem_uuid_In in Em. congruence. }
+    rewrite Hr.
+    assert (Hrest : filter (fun y => p y && mem_uuid (app_uuid y) (u :: r)) l = filter (fun y => p y && mem_uuid (app_uuid y) r) l).
+    { apply filter_ext_in'. intros y Hy. rewrite mem_uuid_cons.
+      destruct (uuid_eqb (app_uuid y) u) eqn:Ey; [|reflexivity].
+      apply uuid_eqb_eq in Ey. exfalso. apply Hx. rewrite E, <- Ey. apply in_map. exact Hy. }
+    rewrite Hrest. cbn [orb]. rewrite andb_true_r, andb_false_r. destruct (p x); rewrite ?ssum_cons; lia.
+  - specialize (IH Hnd). cbn [orb]. destruct (p x && mem_uuid (app_uuid x) r); rewrite ?ssum_cons; lia.
+Qed.
+
+(* delete_appointments(.., refund = true): every listed row's slots go back to its owner *)
+Lemma refund_spec : forall us t t',
+  Inv t -> NoDup us -> refund_loop t us = Ok tt t' ->
+  Inv t' /\ db_apps t' = db_apps t /\ db_trks t' = db_trks t /\
+  forall v, amem (db_users t') v = amem (db_users t) v /\
+            avail t' v = avail t v + ssum (filter (fun a => ofu v a && mem_uuid (app_uuid a) us) (db_apps t)).
+Proof.
+  induction us as [|uuid us IH]; intros t t' HI Hnd; cbn [refund_loop].
+  - intros H; inversion H; subst. split; [exact HI|]. split; [reflexivity|]. split; [reflexivity|].
+    intros v. split; [reflexivity|]. rewrite filter_false; [cbn [ssum fold_right]; lia|]. intros a _. apply andb_false_r.
+  - apply NoDup_cons_iff in Hnd. destruct Hnd as [Hu Hnd].
+    destruct (find_app (db_apps t) uuid) as [a|] eqn:Ef; [|discriminate].
+    destruct (gk_get t (a_user a)) as [ui|] eqn:Eg; [|discriminate].
+    destruct (u32_add (u_slots ui) (slots_of (b_len (a_blob a)))) as [s|] eqn:Es; [|discriminate].
+    intros H. specialize (IH _ _ (inv_refund t (a_user a) ui s HI Eg) Hnd H).
+    destruct IH as [HI' [Ha' [Hk' Hv']]].
+    split; [exact HI'|]. split; [exact Ha'|]. split; [exact Hk'|]. intros v.
+    destruct (Hv' v) as [Hm' Hav']. clear Hv'.
+    assert (Eu : aget (db_users t) (a_user a) = Some ui) by (rewrite <- (inv_sync t HI); exact Eg).
+    assert (Hs : s = u_slots ui + aslots a).
+    { unfold u32_add in Es. destruct (N.leb _ _); inversion Es. reflexivity. }
+    assert (Hget : aget (db_users (p_refund_user t (a_user a) ui s)) v =
+                   if N.eqb v (a_user a) then option_map (fun x => mk_uinfo s (u_start x) (u_expiry x)) (aget (db_users t) v)
+                   else aget (db_users t) v).
+    { unfold p_refund_user, db_update_user_slots. cbn [db_users set_db_users gk_put set_gk_users]. apply aget_map_slots. }
+    split.
+    + rewrite Hm'. unfold amem. rewrite Hget. destruct (N.eqb v (a_user a)); [|reflexivity].
+      destruct (aget (db_users t) v); reflexivity.
+    + rewrite Hav'. change (db_apps (p_refund_user t (a_user a) ui s)) with (db_apps t).
+      rewrite (ssum_mem_cons (ofu v) uuid us (db_apps t) (inv_apps_nodup t HI) Hu), Ef.
+      unfold avail at 1. rewrite Hget. unfold ofu at 3.
+      destruct (N.eqb v (a_user a)) eqn:Ev.
+      * apply N.eqb_eq in Ev. subst v. rewrite N.eqb_refl. unfold avail. rewrite Eu. cbn [option_map u_slots]. lia.
+      * rewrite N.eqb_sym, Ev. unfold avail. lia.
+Qed.
+
+(* check_confirmations: which trackers are reported as completed *)
+Definition IRR : N := Z.to_N Consts.IRREVOCABLY_RESOLVED.
+
+Lemma check_conf_spec le txids h : forall snap t comp comp' t',
+  check_conf_loop le txids h snap t comp = Ok comp' t' ->
+  ua t' = ua t /\
+  exists added, comp' = comp ++ added /\
+    (forall u, In u added -> exists k, In k snap /\ trk_uuid k = u /\ memN (t_penalty k) txids = false /\
+                                       t_conf k = true /\ u32_sub h (t_height k) = Some IRR) /\
+    (forall k, In k snap -> memN (t_penalty k) txids = false -> mem_uuid (trk_uuid k) (reorged t) = false ->
+               t_conf k = true -> u32_sub h (t_height k) = Some IRR -> In (trk_uuid k) added) /\
+    (NoDup (map trk_uuid snap) -> NoDup added).
+Proof.
+  induction snap as [|k snap IH]; intros t comp comp' t'; cbn [check_conf_loop].
+  - intros H; inversion H; subst. split; [reflexivity|]. exists []. rewrite app_nil_r.
+    repeat split; try (intros ? []). intros _. constructor.
+  - destruct (memN (t_penalty k) txids) eqn:Ep.
+    + destruct (find_trk (db_trks t) (trk_uuid k)); [|discriminate].
+      intros H. apply IH in H. destruct H as [Hua [added [Hc [H1 [H2 H3]]]]].
+      split; [exact Hua|]. exists added. split; [exact Hc|]. split; [|split].
+      * intros u Hu. destruct (H1 u Hu) as [k' [Hk' Hr]]. exists k'. split; [right; exact Hk'|exact Hr].
+      * intros k' [Hk'|Hk'] Hp Hr Hcf Hh; [subst k'; congruence|].
+        apply H2; try assumption. cbn [reorged set_reorged set_trk_status set_db_trks]. apply mem_uuid_filter_false. exact Hr.
+      * intros Hnd. cbn [map] in Hnd. apply NoDup_cons_iff in Hnd. apply H3. tauto.
+    + destruct (mem_uuid (trk_uuid k) (reorged t)) eqn:Er.
+      { intros H. apply IH in H. destruct H as [Hua [added [Hc [H1 [H2 H3]]]]].
+        split; [exact Hua|]. exists added. split; [exact Hc|]. split; [|split].
+        * intros u Hu. destruct (H1 u Hu) as [k' [Hk' Hr]]. exists k'. split; [right; exact Hk'|exact Hr].
+        * intros k' [Hk'|Hk'] Hp Hr Hcf Hh; [subst k'; congruence|]. apply H2; assumption.
+        * intros Hnd. cbn [map] in Hnd. apply NoDup_cons_iff in Hnd. apply H3. tauto. }
+      destruct (t_conf k) eqn:Ec.
+      2:{ intros H. apply IH in H. destruct H as [Hua [added [Hc [H1 [H2 H3]]]]].
+        split; [exact Hua|]. exists added. split; [exact Hc|]. split; [|split].
+        * intros u Hu. destruct (H1 u Hu) as [k' [Hk' Hr]]. exists k'. split; [right; exact Hk'|exact Hr].
+        * intros k' [Hk'|Hk'] Hp Hr Hcf Hh; [subst k'; congruence|]. apply H2; assumption.
+        * intros Hnd. cbn [map] in Hnd. apply NoDup_cons_iff in Hnd. apply H3. tauto. }
+      destruct (u32_sub h (t_height k)) as [c|] eqn:Es; [|discriminate].
+      fold IRR. destruct (N.eqb c IRR) eqn:Ei.
+      * apply N.eqb_eq in Ei. subst c.
+        intros H. apply IH in H. destruct H as [Hua [added [Hc [H1 [H2 H3]]]]].
+        split; [exact Hua|]. exists (trk_uuid k :: added). split; [rewrite Hc, <- app_assoc; reflexivity|]. split; [|split].
+        -- intros u [Hu|Hu].
+           ++ exists k. repeat split; try assumption. left; reflexivity.
+           ++ destruct (H1 u Hu) as [k' [Hk' Hr]]. exists k'. split; [right; exact Hk'|exact Hr].
+        -- intros k' [Hk'|Hk'] Hp Hr Hcf Hh; [subst k'; left; reflexivity|]. right. apply H2; assumption.
+        -- intros Hnd. cbn [map] in Hnd. apply NoDup_cons_iff in Hnd. destruct Hnd as [Hx Hnd]. constructor; [|apply H3; exact Hnd].
+           intros Hin. apply Hx. destruct (H1 _ Hin) as [k' [Hk' [He _]]]. rewrite <- He. apply in_map. exact Hk'.
+      * intros H. apply IH in H. destruct H as [Hua [added [Hc [H1 [H2 H3]]]]].
+        split; [exact Hua|]. exists added. split; [exact Hc|]. split; [|split].
+        -- intros u Hu. destruct (H1 u Hu) as [k' [Hk' Hr]]. exists k'. split; [right; exact Hk'|exact Hr].
+        -- intros k' [Hk'|Hk'] Hp Hr Hcf Hh; [subst k'|apply H2; assumption].
+           rewrite Es in Hh. inversion Hh. subst c. rewrite N.eqb_refl in Ei. discriminate.
+        -- intros Hnd. cbn [map] in Hnd. apply NoDup_cons_iff in Hnd. apply H3. tauto.
+Qed.
+
+(* the re-broadcast loops touch only trackers, the carrier and the log *)
+Lemma reorged_loop_ua sc h : forall us t rej rej' t', reorged_loop sc h us t rej = Ok rej' t' -> ua t' = ua t.
+Proof.
+  induction us as [|uuid us IH]; intros t rej rej' t'; cbn [reorged_loop]; [intros H; inversion H; reflexivity|].
+  destruct (find_trk (db_trks t) uuid) as [k|]; [|apply IH].
+  destruct (send_transaction sc t (t_dispute k)) as [s t1] eqn:E1. apply send_spec in E1. destruct E1 as [Hc1 _].
+  apply core_ua in Hc1.
+  destruct s as [hh|hh| |c]; [discriminate| | |intros H; apply IH in H; congruence].
+  - destruct (send_transaction sc t1 (t_penalty k)) as [s2 t2] eqn:E2. apply send_spec in E2. destruct E2 as [Hc2 _].
+    apply core_ua in Hc2. destruct (status_rejected s2); intros H; apply IH in H; [congruence|].
+    change (ua (set_trk_status t2 uuid h false)) with (ua t2) in H. congruence.
+  - destruct (send_transaction sc t1 (t_penalty k)) as [s2 t2] eqn:E2. apply send_spec in E2. destruct E2 as [Hc2 _].
+    apply core_ua in Hc2. destruct (status_rejected s2); intros H; apply IH in H; [congruence|].
+    change (ua (set_trk_status t2 uuid h false)) with (ua t2) in H. congruence.
+Qed.
+
+Lemma stale_loop_ua sc h : forall us t rej rej' t', stale_loop sc h us t rej = Ok rej' t' -> ua t' = ua t.
+Proof.
+  induction us as [|uuid us IH]; intros t rej rej' t'; cbn [stale_loop]; [intros H; inversion H; reflexivity|].
+  destruct (find_trk (db_trks t) uuid) as [k|]; [|discriminate].
+  destruct (send_transaction sc t (t_penalty k)) as [s t1] eqn:E1. apply send_spec in E1. destruct E1 as [Hc1 _].
+  apply core_ua in Hc1.
+  destruct s as [hh|hh| |c]; intros H; apply IH in H; [| | |congruence].
+  - change (ua (set_trk_status t1 uuid hh true)) with (ua t1) in H. congruence.
+  - change (ua (set_trk_status t1 uuid hh false)) with (ua t1) in H. congruence.
+  - change (ua (set_trk_status t1 uuid h false)) with (ua t1) in H. congruence.
+Qed.
